@@ -301,6 +301,15 @@ def rule_stack(rep, res, entry=None, sym="bs"):
                   config=res.config,
                   msg=f"the tail `[{j_}:]` is filled with an extremum of the real rows `[:{k_}]`, but the two boundaries differ: real rows "
                       f"between them are overwritten with another row's value (or padded rows keep their own)")
+    # a per-sample summation written as a constant matrix: the batch index must be the MAJOR index of the summed (sample-major) vector
+    for ev in res.events("group_sum_matrix"):
+        g = ev.d["groups"]
+        if not (isinstance(g, tuple) and sym in g):
+            continue
+        rep.check("R-STACK", "per-sample sums group contiguous entries of the sample-major vector", bool(ev.d["contiguous"]), where=ev.loc,
+                  construct=ev.text(), entry=entry, config=res.config,
+                  msg="np.kron(ones((1, n)), eye(batch)) sums entries that lie `batch` apart: in the sample-major stacked vector those belong "
+                      "to different samples (the block matrix is np.kron(eye(batch), ones((1, n)))) — each 'total' mixes sources of several samples")
     # per-row scalar Parameters (one tolerance / requested total per sample) of a padded batch: the rows appended as padding carry the
     # zero fill of the iterated arrays; a constraint `f(x_row) ≤ 0 (+ eps)` on a padded row is infeasible as soon as the bounds keep
     # f(x_row) away from 0 (lb > 0), and the whole batch fails.  The padded tail of such a Parameter must be set explicitly.
@@ -318,7 +327,7 @@ def rule_stack(rep, res, entry=None, sym="bs"):
             st = [s_ for s_ in stores if s_.loops]
             if not st:
                 continue
-            ok = any(s_.d["val"].tag("tail_filled") for s_ in st)
+            ok = any(s_.d["val"].tag("tail_filled") or s_.d["val"].tag("row_select") for s_ in st)
             rep.check("R-STACK", "per-row parameters of a padded batch get an explicit value for the padded rows", ok, where=st[0].loc,
                       construct=st[0].text(), entry=entry, config=res.config,
                       msg="this per-sample Parameter enters a constraint and receives the iterated array as it is: on the padded last batch "
@@ -407,6 +416,16 @@ def rule_iterator_reuse(rep, res, entry=None):
                          f"sample, every later sample sees an empty sequence")
 
 
+def _canon_call_text(node):
+    """construct text of a reducer call for the identity of a finding: keywords that only spell out a default (`axis=None`,
+    `keepdims=False`) are left out, so that writing the defaults explicitly does not make a known construct look new"""
+    if isinstance(node, ast.Call) and node.keywords:
+        kws = [k for k in node.keywords if not (isinstance(k.value, ast.Constant) and k.value.value in (None, False))]
+        if len(kws) != len(node.keywords):
+            node = ast.Call(func=node.func, args=node.args, keywords=kws)
+    return norm_text(node)
+
+
 def rule_sep(rep, res, entry=None, sym="bs"):
     """R-SEP: reducers that collapse the stacked axis are additive in the objective and absent from the
     constraints (element-wise or per-row after a C-order regroup)."""
@@ -421,7 +440,7 @@ def rule_sep(rep, res, entry=None, sym="bs"):
                     ax = val.tag("reduce_axis")
                     node = val.tag("node")
                     where = f"{po.fn.module.relpath}:{getattr(node, 'lineno', 0)}"
-                    text = norm_text(node) if node is not None else atom
+                    text = _canon_call_text(node) if node is not None else atom
                     if src is None:
                         rep.undecided("R-SEP", f"{role}:{atom}", where=where, construct=text, entry=entry, config=res.config)
                         continue
